@@ -1314,6 +1314,14 @@ void run_c19(Judge& j, uint64_t n, int64_t only = -1) {
                         if (rp.type == ref::SUBACK || rp.type == ref::UNSUBACK) rp.rcs = {0};
                         // full forms carry inner length fields (Property Length, string lengths) for the mutator to break
                         if (rng.chance(1, 2)) { ref::Prop rs; rs.id = 0x1F; rs.s1 = "reason"; rp.props.push_back(rs); ref::Prop up; up.id = 0x26; up.s1 = "k"; up.s2 = "v"; rp.props.push_back(up); }
+                        if (rng.chance(1, 3)) {
+                            // structurally perfect, semantically malformed: a reason code MQTT 5 does not list for the packet, alone or as
+                            // a surplus code next to a valid one
+                            uint8_t bad_rc; do bad_rc = (uint8_t)rng.below(256); while (ref::rc_listed(rp.type, bad_rc));
+                            if (rp.type == ref::SUBACK || rp.type == ref::UNSUBACK) { if (rng.chance(1, 2)) rp.rcs = {bad_rc}; else if (rng.chance(1, 2)) rp.rcs = {0x00, bad_rc}; else rp.rcs = {bad_rc, 0x00}; }
+                            else rp.rc = bad_rc;
+                            hostile += ref::encode(rp);
+                        } else
                         hostile += mutate_packet(rng, g, rp.type, &rp);
                     } else hostile += mutate_packet(rng, g, t);
                 } else {
@@ -1365,6 +1373,69 @@ void run_c19(Judge& j, uint64_t n, int64_t only = -1) {
                 if (o.t_init == 2 * SEC && o.kind == OpKind::pub1 && !(o.completions && o.t_done < sc.end && (!o.ec || o.ec.category() == boost::mqtt5::client::get_error_code_category())))
                     j.res.violation("C19", "C19:no-recovery-after-hostile-bytes", "a QoS 1 publish issued 1.8 s after the hostile bytes had not completed 90 virtual seconds later (phase " + std::to_string(phase) + ", chunking " + std::to_string(c) + ")",
                                       "scenario:\n" + sc.describe() + "\nhostile bytes: " + vu::hex(hostile, 200) + "\n" + ex->world->h.dump(700));
+            // "A malformed packet never completes a user operation successfully": while the broker is silent (phase >= 2, until
+            // 400 ms) the only acknowledgements a request can see are in the hostile bytes. A request that completes successfully in
+            // that window must find, among the frames of the hostile stream, a WELL-FORMED acknowledgement of its kind with its
+            // packet id, admissible reason codes and one code per topic (a forged but valid acknowledgement is not a malformed one).
+            if (phase >= 2) {
+                const History& h = ex->world->h;
+                std::vector<ref::Packet> good;
+                for (size_t off = 0; off < hostile.size();) {
+                    auto d = ref::decode(std::string_view(hostile).substr(off), ref::Dir::from_server);
+                    if (!d.framed || d.consumed == 0 || off + d.consumed > hostile.size()) break;
+                    // structurally sound and every reason code listed for the packet type; what the specification leaves open or the
+                    // reference is stricter about (duplicate properties, reserved bits: the don't-care list of the decoder part) is not
+                    // held against the client here
+                    if (d.status == ref::Status::malformed) {
+                        // the decoder part of C19 holds the library to the structural classes only (truncations, Property Length beyond the
+                        // packet, unknown / misplaced properties); what it may accept leniently there (ill-formed UTF-8 inside a string,
+                        // bytes behind the property section, ...) it may act upon here. Such a frame counts for the request it names.
+                        const std::string& er = d.error;
+                        bool must_reject = er != "truncated property length" && (er.rfind("truncated", 0) == 0 || er == "property length exceeds packet" || er.rfind("unknown property id", 0) == 0 || er.find("not allowed in") != std::string::npos);
+                        uint8_t ty = uint8_t(hostile[off]) >> 4;
+                        size_t hl = 1; while (hl < 5 && off + hl < hostile.size() && (uint8_t(hostile[off + hl]) & 0x80)) ++hl; ++hl;
+                        if (!must_reject && d.consumed >= hl + 2 && (ty == ref::PUBACK || ty == ref::PUBREC || ty == ref::PUBCOMP || ty == ref::SUBACK || ty == ref::UNSUBACK)) {
+                            ref::Packet lp; lp.type = ty; lp.pid = uint16_t(uint8_t(hostile[off + hl]) << 8 | uint8_t(hostile[off + hl + 1])); lp.short_form = 255;
+                            good.push_back(lp); j.res.count("leniently_acceptable_hostile_acks");
+                        }
+                    }
+                    if (d.status == ref::Status::ok) {
+                        bool listed = true;
+                        if (d.pkt.type == ref::SUBACK || d.pkt.type == ref::UNSUBACK) { for (auto x : d.pkt.rcs) if (!ref::rc_listed(d.pkt.type, x)) listed = false; }
+                        else if (!ref::rc_listed(d.pkt.type, d.pkt.rc)) listed = false;
+                        if (listed) good.push_back(d.pkt);
+                    }
+                    off += d.consumed;
+                }
+                for (auto& o : h.ops) {
+                    bool pub = o.kind == OpKind::pub1 || o.kind == OpKind::pub2, sub = o.kind == OpKind::sub || o.kind == OpKind::unsub;
+                    if ((!pub && !sub) || o.t_init >= 200 * MS) continue;
+                    j.res.count("requests_exposed_to_hostile_acknowledgements");
+                    if (!o.completions || o.ec || o.t_done >= 400 * MS) continue;
+                    char tag[16]; snprintf(tag, sizeof tag, "v/%05d/", o.id);
+                    int pid = -1;
+                    for (auto& k : h.cpkts) {
+                        if (k.dec.status != ref::Status::ok || pid >= 0) continue;
+                        auto& q = k.dec.pkt;
+                        if (q.type == ref::PUBLISH && q.topic.find(tag) != std::string::npos) pid = q.pid;
+                        if (q.type == ref::SUBSCRIBE && !q.subs.empty() && q.subs[0].first.find(tag) != std::string::npos) pid = q.pid;
+                        if (q.type == ref::UNSUBSCRIBE && !q.unsubs.empty() && q.unsubs[0].find(tag) != std::string::npos) pid = q.pid;
+                    }
+                    bool legit = false;
+                    for (auto& g : good) {
+                        if (g.pid != pid) continue;
+                        if (o.kind == OpKind::pub1 && g.type == ref::PUBACK) legit = true;
+                        if (o.kind == OpKind::pub2 && (g.type == ref::PUBCOMP || g.type == ref::PUBREC)) legit = true;
+                        if (o.kind == OpKind::sub && g.type == ref::SUBACK && (g.short_form == 255 || g.rcs.size() == o.subs.size())) legit = true;
+                        if (o.kind == OpKind::unsub && g.type == ref::UNSUBACK && (g.short_form == 255 || g.rcs.size() == o.unsubs.size())) legit = true;
+                    }
+                    j.res.count(legit ? "requests_completed_by_forged_but_wellformed_ack" : "requests_completed_without_wellformed_ack");
+                    if (!legit)
+                        j.res.violation("C19", std::string("C19:malformed-packet-completed-operation:") + op_kind_name(o.kind),
+                                        std::string(op_kind_name(o.kind)) + " (packet id " + std::to_string(pid) + ") completed successfully at " + std::to_string(o.t_done / 1e6) + " ms although the silent broker's hostile bytes contain no well-formed acknowledgement for it (chunking " + std::to_string(c) + ")",
+                                        "scenario:\n" + sc.describe() + "\nhostile bytes: " + vu::hex(hostile, 300) + "\n" + h.dump(400));
+                }
+            }
             if (phase >= 1) { sigs[c] = chunk_signature(*ex); have[c] = true; }
         }
         if (phase >= 1 && have[0] && have[1] && have[2]) {
@@ -1433,6 +1504,80 @@ void run_c20_insitu(Judge& j) {
                 if (sendable) { j.res.count("c20_insitu_sendable"); if (malformed) j.res.violation("C20", "C20:in-situ:auth-code-rejected", std::string("Server AUTH with reason code ") + hex + " (a Server may send it) was answered with a malformed-packet / protocol-error DISCONNECT", rp); if (rc == 0x18 && !answers) j.res.violation("C20", "C20:in-situ:auth-continue-not-answered", "Server AUTH 0x18 was not answered with AUTH", rp); }
                 else if (!listed && answers) j.res.violation("C20", "C20:in-situ:unlisted-auth-code-accepted", std::string("Server AUTH with the unlisted reason code ") + hex + " was answered as if it were a valid step", rp);
             }
+        }
+    // The acknowledgement categories at their call sites: the broker stays silent, so the only acknowledgement the request ever
+    // sees is the scripted one carrying the byte under test. kinds: 3 SUBACK {X}, 4 SUBACK {0x00, X} (a surplus byte), 5 UNSUBACK {X},
+    // 6 UNSUBACK {0x00, X}, 7 PUBACK X, 8 PUBREC X, 9 PUBCOMP X (after PUBREC 0x00), 10 PUBREL X for an inbound QoS 2 message.
+    // Oracle: a code a Server may send is accepted and the handler receives exactly that value (PUBREC < 0x80: the client goes on
+    // with PUBREL; PUBREL: the client answers PUBCOMP); a byte MQTT 5 does not list never takes part in a successful completion
+    // (nor in a PUBREL / PUBCOMP answer).
+    for (int kind = 3; kind <= 10; ++kind)
+        for (int code = 0; code < 256; ++code) {
+            if (int(idx++ % ctx.nshards) != ctx.shard) continue;
+            uint8_t rc = (uint8_t)code;
+            static const char* names[] = {"", "", "", "suback", "suback-surplus", "unsuback", "unsuback-surplus", "puback", "pubrec", "pubcomp", "pubrel"};
+            Scenario sc; sc.family = std::string("c20-") + names[kind]; sc.seed = ctx.seed; sc.index = (uint64_t)code;
+            sc.ccfg.keep_alive = 600; sc.auto_receive = true;
+            sc.bcfg.silent_from = 0; sc.bcfg.silent_until = -1;
+            Action r; r.kind = Action::run; sc.script.push_back(r);
+            uint8_t ptype = kind <= 4 ? ref::SUBACK : kind <= 6 ? ref::UNSUBACK : kind == 7 ? ref::PUBACK : kind == 8 ? ref::PUBREC : kind == 9 ? ref::PUBCOMP : ref::PUBREL;
+            bool sendable = ref::rc_sendable(ptype, rc, ref::Dir::from_server), listed = ref::rc_listed(ptype, rc);
+            Action q; q.at = 50 * MS;
+            if (kind <= 4) { q.kind = Action::subscribe; q.subs = {{"c20/+", 1}}; }
+            else if (kind <= 6) { q.kind = Action::unsubscribe; q.subs = {{"c20/+", 0}}; }
+            else if (kind <= 9) { q.kind = Action::publish; q.qos = kind == 7 ? 1 : 2; q.topic = "c20"; q.payload = "x"; }
+            if (kind <= 9) sc.script.push_back(q);
+            auto ack = [&](vt at, uint8_t type, uint16_t pid, std::vector<uint8_t> rcs, uint8_t one) {
+                Action a; a.kind = Action::spurious_ack; a.at = at; a.pkt.type = type; a.pkt.pid = pid; a.pkt.rcs = std::move(rcs); a.pkt.rc = one;
+                if (one == 0 && a.pkt.rcs.empty()) a.pkt.short_form = 0;
+                sc.script.push_back(a);
+            };
+            if (kind == 3 || kind == 5) ack(100 * MS, ptype, 1, {rc}, 0);
+            else if (kind == 4 || kind == 6) ack(100 * MS, ptype, 1, {0x00, rc}, 0);
+            else if (kind == 7 || kind == 8) ack(100 * MS, ptype, 1, {}, rc);
+            else if (kind == 9) { ack(100 * MS, ref::PUBREC, 1, {}, 0); ack(200 * MS, ref::PUBCOMP, 1, {}, rc); }
+            else {
+                Action a; a.kind = Action::spurious_ack; a.at = 100 * MS; a.pkt.type = ref::PUBLISH; a.pkt.qos = 2; a.pkt.pid = 90; a.pkt.topic = "in/c20"; a.pkt.payload = "two"; sc.script.push_back(a);
+                ack(200 * MS, ref::PUBREL, 90, {}, rc);
+            }
+            sc.end = 3 * SEC;
+            vu::set_case(sc.family + " code=" + std::to_string(code));
+            auto ex = execute(sc);
+            j.res.evaluations++; j.res.count("c20_insitu_cases"); j.res.hash(vu::mix(vu::mix(0xC20, kind), code));
+            const History& h = ex->world->h;
+            char hex[8]; snprintf(hex, sizeof hex, "0x%02x", code);
+            std::string rp = "scenario:\n" + sc.describe() + "\n" + h.dump(200);
+            std::string fam = sc.family.substr(4);
+            if (ex->run.out.exception || ex->run.out.hang) { j.res.violation("C20", std::string("C20:in-situ:engine:") + sc.family, std::string("exception / livelock with reason code ") + hex, rp); continue; }
+            const OpRec* req = nullptr;
+            for (auto& o : h.ops) if (o.kind == OpKind::sub || o.kind == OpKind::unsub || o.kind == OpKind::pub1 || o.kind == OpKind::pub2) { req = &o; break; }
+            bool success = req && req->completions && !req->ec;
+            int pubrels = 0, pubcomps = 0, malformed = 0;
+            for (auto& k : h.cpkts) if (k.dec.status == ref::Status::ok) {
+                if (k.dec.pkt.type == ref::PUBREL) ++pubrels;
+                if (k.dec.pkt.type == ref::PUBCOMP && k.dec.pkt.pid == 90) ++pubcomps;
+                if (k.dec.pkt.type == ref::DISCONNECT && (k.dec.pkt.rc == 0x81 || k.dec.pkt.rc == 0x82)) ++malformed;
+            }
+            if (kind == 4 || kind == 6) {
+                // a surplus byte: whatever it is, the acknowledgement does not fit the request; an unlisted byte that is skipped was accepted
+                if (!listed && success) j.res.violation("C20", "C20:in-situ:unlisted-" + fam + "-code-accepted", std::string("an acknowledgement carrying the unlisted reason code ") + hex + " next to a valid one completed the request successfully", rp);
+                continue;
+            }
+            if (kind == 10) {
+                if (sendable) { j.res.count("c20_insitu_sendable"); if (!pubcomps || malformed) j.res.violation("C20", "C20:in-situ:pubrel-code-rejected", std::string("PUBREL with reason code ") + hex + " (a Server may send it) was not answered with PUBCOMP", rp); }
+                else if (!listed && pubcomps) j.res.violation("C20", "C20:in-situ:unlisted-pubrel-code-accepted", std::string("PUBREL with the unlisted reason code ") + hex + " was answered with PUBCOMP", rp);
+                continue;
+            }
+            if (kind == 8 && rc < 0x80) {
+                if (sendable) { j.res.count("c20_insitu_sendable"); if (!pubrels || malformed) j.res.violation("C20", "C20:in-situ:pubrec-code-rejected", std::string("PUBREC with reason code ") + hex + " (a Server may send it) was not followed by PUBREL", rp); }
+                else if (!listed && (pubrels || success)) j.res.violation("C20", "C20:in-situ:unlisted-pubrec-code-accepted", std::string("PUBREC with the unlisted reason code ") + hex + " was accepted", rp);
+                continue;
+            }
+            if (sendable) {
+                j.res.count("c20_insitu_sendable");
+                bool exact = success && req->rcs.size() == 1 && req->rcs[0] == rc;
+                if (!exact) j.res.violation("C20", "C20:in-situ:" + fam + "-code-not-reported", fam + " with reason code " + hex + " (a Server may send it): the request " + (success ? "reported another value" : "did not complete successfully"), rp);
+            } else if (!listed && success) j.res.violation("C20", "C20:in-situ:unlisted-" + fam + "-code-accepted", fam + " with the unlisted reason code " + hex + " completed the request successfully", rp);
         }
 }
 
